@@ -291,28 +291,61 @@ def r7_zero_period_is_not_accepted(ctx):
     if not sites:
         ctx.ob("R14.7", "CLI:check-interval-not-settable", True, "", "the client binary does not derive the pool's check interval from a run-time integer")
         return
-    for key, body, bi, line, x in sites:
-        ctx.bodies_touched.add(body.name)
+    def proven(body, x, bi, depth=0):
+        """(ok, how): the integer term x is non-zero at block bi of body — by a guard there, by every Ok return of the local
+        function it comes from, or (when it is a parameter of a helper) at every call site of that helper"""
         cfg, conds, o = ctx.cfg(body), ctx.conds(body), ctx.origins(body)
-        ok = _nonzero_at(body, cfg, conds, o, x, bi)
-        how = "guarded non-zero at the store"
-        if not ok and isinstance(x, tuple) and x and x[0] == "call":
+        ctx.bodies_touched.add(body.name)
+        if _nonzero_at(body, cfg, conds, o, x, bi):
+            return True, "guarded non-zero at the use"
+        if depth > 3 or not isinstance(x, tuple) or not x:
+            return False, ""
+        if x[0] == "phi":
+            alts = [a for a in x[1] if not (isinstance(a, tuple) and a and a[0] == "agg" and len(a) > 2 and a[2] == "None")]
+            alts = [a[3][0] if isinstance(a, tuple) and a[0] == "agg" and len(a) > 2 and a[2] == "Some" and a[3] else a for a in alts]
+            rs = [proven(body, a, bi, depth + 1) for a in alts]
+            return (bool(rs) and all(r[0] for r in rs)), "; ".join(sorted({r[1] for r in rs}))
+        if x[0] == "call":
             k = ctx.cg.resolve(body, re.sub(r"::<[^>]*>", "", x[1]))
             f = ctx.P.bodies.get(k) if k else None
-            if f is not None:
-                ctx.bodies_touched.add(f.name)
-                fc, fcd, fo = ctx.cfg(f), ctx.conds(f), ctx.origins(f)
-                oks = ok_return_blocks(f, fo)
-                good = bool(oks)
-                for rb in oks:
-                    pay = None
-                    for st in f.blocks[rb]["stmts"]:
-                        if st["s"] == "assign" and st["rv"]["r"] == "aggregate" and st["rv"]["kind"].get("variant") == "Ok":
-                            pay = fo.of_operand(st["rv"]["ops"][0])
-                    if pay is None or not _nonzero_at(f, fc, fcd, fo, pay, rb):
-                        good = False
-                ok = good
-                how = "every Ok return of %s is guarded non-zero" % k.split("::")[-1]
+            if f is None:
+                return False, ""
+            ctx.bodies_touched.add(f.name)
+            fc, fcd, fo = ctx.cfg(f), ctx.conds(f), ctx.origins(f)
+            oks = ok_return_blocks(f, fo)
+            good = bool(oks)
+            for rb in oks:
+                pay = None
+                for st in f.blocks[rb]["stmts"]:
+                    if st["s"] == "assign" and st["rv"]["r"] == "aggregate" and st["rv"]["kind"].get("variant") == "Ok":
+                        pay = fo.of_operand(st["rv"]["ops"][0])
+                if pay is None or not _nonzero_at(f, fc, fcd, fo, pay, rb):
+                    good = False
+            return good, "every Ok return of %s is guarded non-zero" % k.split("::")[-1]
+        if x[0] == "var" and isinstance(x[1], str):
+            root = re.split(r"[<.\[(*]", x[1].lstrip("(*"))[0]
+            idx = [i for i, nm in body.debug.items() if nm == root and 1 <= i <= body.arg_count]
+            if not idx or body.is_coroutine:
+                return False, ""
+            callers = [e for e in ctx.cg.callers(ctx.cg.key_of(body)) if e.kind in ("call", "spawn")]
+            if not callers:
+                return False, ""
+            hows = []
+            for e in callers:
+                cb = ctx.P.bodies[e.src]
+                co_ = ctx.origins(cb)
+                call = [c for c in cb.calls() if c.bb == e.bb]
+                if not call or len(call[0].args) < idx[0]:
+                    return False, ""
+                r = proven(cb, co_.of_operand(call[0].args[idx[0] - 1]), e.bb, depth + 1)
+                if not r[0]:
+                    return False, ""
+                hows.append(r[1])
+            return True, "parameter of %s; at its call site(s): %s" % (body.name.split("::")[-1], "; ".join(sorted(set(hows))))
+        return False, ""
+
+    for key, body, bi, line, x in sites:
+        ok, how = proven(body, x, bi)
         ctx.ob("R14.7", "CLI:check-interval-is-never-zero", ok, "src/bin/client.rs:%s" % line, how if ok else
                "the check interval is built from `%s`, which can be 0: the command line accepts `-I 0`, tokio::time::interval panics on a zero period inside the detached monitor task (and the pool's reaper), "
                "the client keeps running without a liveness monitor and a server that falls silent is never closed" % fmt(x)[:100])
